@@ -4,6 +4,10 @@
 // real set, so the generator decides which keys collide).  Key and value objects count their
 // constructions / destructions; contents are read straight from the bucket array (private fields via
 // -fno-access-control) and printed sorted by key; `enum` / `enext` go through the real enumerators.
+// Two maps exist (`sel 0|1` selects the one the other lines act on and observe) so that an enumerator can be
+// re-bound to another set: `estart` = `set_enum en(selected)` + `map_enum men(selected)`, `enew` = default-
+// constructed enumerators, `erebind i` = `en = map_i.m_set; men = map_i;` on the EXISTING enumerator objects,
+// `enext` = `NextElement()` / `NextKey()` in lockstep (they must agree).
 #include <morfuse/Container/set.h>
 #include "lineio.h"
 
@@ -39,10 +43,15 @@ using Set = con::set<Key, Val, KeyHash>;
 using MapEnum = con::map_enum<Key, Val, KeyHash>;
 using SetEnum = con::set_enum<Key, Val, KeyHash>;
 
-Map* m = nullptr;
+Map* maps[2] = { nullptr, nullptr };
+Map* m = nullptr;              // the selected map
+size_t sel = 0;
 SetEnum* en = nullptr;
+MapEnum* men = nullptr;        // advanced in lockstep with `en`
 bool quiet = false;
-long cumC = 0, cumD = 0;       // entries constructed / destroyed by the set (measured on the values)
+long cums[2][2] = { { 0, 0 }, { 0, 0 } };   // per map: entries constructed / destroyed (measured on the values)
+#define cumC cums[sel][0]
+#define cumD cums[sel][1]
 
 std::string obs()
 {
@@ -58,8 +67,10 @@ std::string obs()
         + std::to_string(s.tableLengthIndex) + " de=" + (s.defaultEntry ? "1" : "0") + " |";
     if (quiet) o += " -";
     for (auto& kv : all) o += " " + std::to_string(kv.first) + ":" + std::to_string(kv.second);
-    o += " | c=" + std::to_string(cumC) + " d=" + std::to_string(cumD) + " live=" + std::to_string(Val::live);
-    if (Key::live != Val::live) o += " keys-live=" + std::to_string(Key::live);
+    // objects alive in THIS map: everything alive minus what the other map's ledger says it holds
+    const long otherLive = cums[1 - sel][0] - cums[1 - sel][1];
+    o += " | c=" + std::to_string(cumC) + " d=" + std::to_string(cumD) + " live=" + std::to_string(Val::live - otherLive);
+    if (Key::live != Val::live) o += " keys-live=" + std::to_string(Key::live - otherLive);
     return o;
 }
 
@@ -73,12 +84,14 @@ template<typename F> void charged(F f)
 void resetAll()
 {
     delete en; en = nullptr;
-    delete m; m = nullptr;
+    delete men; men = nullptr;
+    delete maps[0]; delete maps[1];
     Key::live = Key::ctors = Key::dtors = 0;
     Val::live = Val::ctors = Val::dtors = 0;
-    cumC = cumD = 0;
+    cums[0][0] = cums[0][1] = cums[1][0] = cums[1][1] = 0;
     quiet = false;
-    m = new Map;
+    maps[0] = new Map; maps[1] = new Map;
+    sel = 0; m = maps[0];
 }
 }
 
@@ -160,8 +173,26 @@ int main()
             if (e.CurrentKey() || e.CurrentValue()) ret += " !current-after-end";
             if (ret.empty()) ret = "";
             mutated = false;
+        } else if (op == "sel" && n.size() == 1 && n[0] <= 1) {
+            sel = n[0]; m = maps[sel];
+            mutated = false;
+            say("ok - | " + obs());
+            continue;
         } else if (op == "estart" && n.empty()) {
             delete en; en = new SetEnum(s);
+            delete men; men = new MapEnum(*m);
+            mutated = false;
+        } else if (op == "enew" && n.empty()) {
+            delete en; en = new SetEnum();
+            delete men; men = new MapEnum();
+            mutated = false;
+        } else if (op == "erebind" && n.size() == 1 && n[0] <= 1) {
+            if (!en) ok = false;
+            else {
+                // re-use of the SAME enumerator objects: operator=(set&) / operator=(map&)
+                *en = maps[n[0]]->m_set;
+                *men = *maps[n[0]];
+            }
             mutated = false;
         } else if (op == "enext" && n.empty()) {
             if (!en) ok = false;
@@ -169,14 +200,17 @@ int main()
                 const auto* e = en->NextElement();
                 ret = e ? std::to_string(e->Key().v) + ":" + std::to_string(e->Value().v) : std::string("end");
                 if (en->CurrentElement() != e) ret += "!CurrentElement-disagrees";
+                const Key* mk = men->NextKey();
+                const Val* mv = men->CurrentValue();
+                if ((mk != nullptr) != (e != nullptr) || (e && (mk != &e->Key() || mv != &e->Value()))) ret += "!map_enum-disagrees";
             }
             mutated = false;
         } else ok = false;
         if (!ok) { say("bad-op"); continue; }
-        if (mutated) { delete en; en = nullptr; }
+        if (mutated) { delete en; en = nullptr; delete men; men = nullptr; }
         say("ok " + ret + " | " + obs());
     }
-    delete en; delete m;
+    delete en; delete men; delete maps[0]; delete maps[1];
     std::fflush(stdout);
     std::_Exit(0);   // the static pool allocator outlives the default memory manager otherwise
 }
